@@ -345,6 +345,10 @@ fn decode_stun_message(bytes: &[u8]) -> Result<StunDecoded> {
             break;
         }
         let value = &bytes[offset..offset + len];
+        // RFC 5389 15.4: whatever follows MESSAGE-INTEGRITY (other than FINGERPRINT,
+        // which carries nothing we read) is not covered by it and must be ignored -
+        // otherwise anyone can append, say, USE-CANDIDATE to a captured genuine check.
+        let typ = if integrity.is_some() { 0xFFFF } else { typ };
         match typ {
             0x0020 => {
                 if let Some(addr) = parse_xor_address(value, &transaction_id)? {
